@@ -147,6 +147,10 @@ fn main() {
     let (nc, nb) = if quick { (4, 1) } else { (4, 2) };
     let (all_shapes, shape_transitions) = gitx::explore_shapes(nc, nb);
     // quick keeps every shape with <= 3 commits and the merge shapes with 4
+    // cross-check of the explorer itself (not of zerv): stateright's BFS over the same operation system and
+    // bounds must reach the same number of unique states
+    let sr_states = gitx::sr::unique_states(nc, nb);
+    if sr_states != all_shapes.len() { machinery_error(&format!("shape explorer disagrees with stateright: {} vs {sr_states} unique states", all_shapes.len())); }
     // HEAD is enumerated separately in layer B, so shapes differing only in the branch checked out during
     // construction describe the same set of repositories: one representative per (DAG, branch refs)
     let mut seen_dag = std::collections::BTreeSet::new();
@@ -288,6 +292,7 @@ fn main() {
     cov.samples = vec![json!({"ops":["branch b1","commit","checkout main","commit","merge b1"],"dates":"decreasing","tags":["v2.0.0@1","v1.0.0@0"],"head":"main"}), json!({"one_commit_tags":["v1.0.0","1.1.0rc1","1.1.0.post1"],"input_format":"auto"}), json!({"worktree":"IgnoredOnly","head":"detached"})];
     cov.set("clause_counts", all.to_json());
     cov.set("wall_cap_hit", was_capped);
+    cov.set("explorer_cross_check", json!({"engine":"stateright 0.31 spawn_bfs","unique_states":sr_states,"own_bfs_states":all_shapes.len()}));
     cov.set("process_conformance_cases", s_p.get("process_conformance_cases"));
     cov.assumptions = vec!["R-GIT (harness/src/gitx.rs + the oracle in c02.rs); which of several equal-precedence tags / which member of the nearest-tag antichain is reported is left open".into(), "octopus merges, shallow clones, worktrees, submodules, packed refs and exotic tag names are out of scope".into(), "tag validity judged by the reference recognisers R-SV / R-PEP".into()];
     finish(&ctx, cov);
